@@ -59,7 +59,17 @@ structure LoopState where
 
 def otherOpOf (fixedOp : Nat) : Nat := if fixedOp = 1 ∨ fixedOp = 3 then 2 else 1
 
-/-- one iteration `i` of the loop; `combine` tells how the new term list is stored -/
+/-- the body of one iteration once the fixed qubit is known: every term and every remaining
+stabilizer goes through `fix_single_term`, then the two checks on the updated stabilizers -/
+def applyFix (tol : Rat) (pos fop other : Nat) (stab0 : Op) (terms rest : List Op) :
+    Except Err (List Op × List Op) := do
+  let newTerms ← terms.mapM fun t => fixSingleTerm t pos fop other stab0
+  let updated ← rest.mapM fun s => fixSingleTerm s pos fop other stab0
+  checkLinearity updated
+  checkCommuting tol updated
+  .ok (newTerms, updated)
+
+/-- one iteration `i` of the loop -/
 def loopStep (tol : Rat) (manual : Bool) (i : Nat) (st : LoopState) : Except Err LoopState := do
   let stab0 ← match st.stabs with
     | s :: _ => .ok s
@@ -88,10 +98,7 @@ def loopStep (tol : Rat) (manual : Bool) (i : Nat) (st : LoopState) : Except Err
     let pos ← match fixed[i]? with
       | some p => .ok p
       | none => .error Err.indexError
-    let newTerms ← st.terms.mapM fun t => fixSingleTerm t pos fop other stab0
-    let updated ← rest.mapM fun s => fixSingleTerm s pos fop other stab0
-    checkLinearity updated
-    checkCommuting tol updated
+    let (newTerms, updated) ← applyFix tol pos fop other stab0 st.terms rest
     .ok ⟨newTerms, updated, fixed, fixedOp, stale⟩
 
 def runLoop (tol : Rat) (manual : Bool) (k : Nat) (st : LoopState) : Except Err LoopState :=
